@@ -297,3 +297,85 @@ pub fn abs_result(r: &Result<ast::Value, EvaluationError>) -> Result<R, String> 
         Err(e) => Ok(Err(class_of(e))),
     }
 }
+
+// ---------- policies ----------
+
+/// loc-free structural abstraction of a policy / template
+#[derive(Clone, Debug, PartialEq, Eq, Hash, serde::Serialize)]
+pub struct AbsPol {
+    pub id: String,
+    pub effect: Effect,
+    pub annotations: BTreeMap<String, String>,
+    pub principal: PR,
+    /// `action in x` and `action in [x]` are the same constraint in the AST: both are InList
+    pub action: AS,
+    pub resource: PR,
+    /// the non-scope condition (None when there are no when/unless clauses)
+    pub cond: Option<E>,
+    /// slot bindings of a linked policy
+    pub env: BTreeMap<String, Uid>,
+}
+
+fn abs_ref(r: &ast::EntityReference) -> Ref {
+    match r {
+        ast::EntityReference::EUID(u) => Ref::Uid(abs_uid(u)),
+        ast::EntityReference::Slot(_) => Ref::Slot,
+    }
+}
+
+pub fn abs_pr(c: &ast::PrincipalOrResourceConstraint) -> PR {
+    use ast::PrincipalOrResourceConstraint as C;
+    match c {
+        C::Any => PR::Any,
+        C::In(r) => PR::In(abs_ref(r)),
+        C::Eq(r) => PR::Eq(abs_ref(r)),
+        C::Is(t) => PR::Is(t.to_string()),
+        C::IsIn(t, r) => PR::IsIn(t.to_string(), abs_ref(r)),
+    }
+}
+
+pub fn abs_action(c: &ast::ActionConstraint) -> AS {
+    match c {
+        ast::ActionConstraint::Any => AS::Any,
+        ast::ActionConstraint::Eq(u) => AS::Eq(abs_uid(u)),
+        ast::ActionConstraint::In(us) => AS::InList(us.iter().map(|u| abs_uid(u)).collect()),
+    }
+}
+
+pub fn norm_action(a: &AS) -> AS {
+    match a {
+        AS::In(u) => AS::InList(vec![u.clone()]),
+        o => o.clone(),
+    }
+}
+
+pub fn abs_template(t: &ast::Template) -> Result<AbsPol, String> {
+    Ok(AbsPol {
+        id: AsRef::<str>::as_ref(t.id()).to_string(),
+        effect: match t.effect() {
+            ast::Effect::Permit => Effect::Permit,
+            ast::Effect::Forbid => Effect::Forbid,
+        },
+        annotations: t.annotations().map(|(k, v)| (k.to_string(), v.val.to_string())).collect(),
+        principal: abs_pr(t.principal_constraint().as_inner()),
+        action: abs_action(t.action_constraint()),
+        resource: abs_pr(t.resource_constraint().as_inner()),
+        cond: match t.non_scope_constraints() {
+            Some(e) => Some(abs_expr(e)?),
+            None => None,
+        },
+        env: BTreeMap::new(),
+    })
+}
+
+pub fn abs_policy(p: &ast::Policy) -> Result<AbsPol, String> {
+    let mut a = abs_template(p.template())?;
+    a.id = AsRef::<str>::as_ref(p.id()).to_string();
+    a.env = p.env().iter().map(|(k, v)| (k.to_string(), abs_uid(v))).collect();
+    Ok(a)
+}
+
+/// the scope part of a reference policy, for comparison with `AbsPol`
+pub fn scope_of(p: &Pol) -> (Effect, PR, AS, PR) {
+    (p.effect, p.principal.clone(), norm_action(&p.action), p.resource.clone())
+}
